@@ -287,7 +287,7 @@ def enum_lifetime(meta, tier, sel):
 def enum_deathwatch(meta, tier, sel):
     quick = tier == 'quick'
     slen = 5 if quick else 6
-    alpha = ['mon1', 'mon2', 'rel1', 'rel2', 'die1', 'die2', 'cp1', 'mv1', 'as12', 'as21', 'asmv12', 'die3']
+    alpha = ['mon1', 'mon2', 'rel1', 'rel2', 'die1', 'die2', 'cp1', 'cpc1', 'mv1', 'as12', 'as21', 'asmv12', 'die3']
     sites = [st for st in meta['mon_sites'] if st['cls'] == 'P']
     s0 = [st['site'] for st in sites if st['nseq'] == 0]
     s1 = [st['site'] for st in sites if st['nseq'] == 1]
@@ -328,10 +328,10 @@ def enum_deathwatch(meta, tier, sel):
                     # the requirement object stays alive (satisfied) until released
                     if mon[k] is not None:
                         mon[k] = (mon[k][0], mon[k][1])
-                elif sym in ('cp1', 'mv1'):
+                elif sym in ('cp1', 'cpc1', 'mv1'):
                     if alive[1] is None or third is not None: ok = False; break
                     third = c.id()
-                    ops.append(('cpobj' if sym == 'cp1' else 'mvobj', third, alive[1]))
+                    ops.append(({'cp1': 'cpobj', 'cpc1': 'cpobjc', 'mv1': 'mvobj'}[sym], third, alive[1]))
                 elif sym == 'die3':
                     if third is None or third == 'dead': ok = False; break
                     ops.append(('rmobj', third)); third = 'dead'
